@@ -193,8 +193,11 @@ def run_shard(args):
     if rc != 0 or ": list N" not in out:
         # find which case breaks compilation: bisect lazily by single-case files (bounded)
         return {"ok": False, "ids": ids, "failing": None, "log": out[-3000:], "dt": dt}
+    # `= [3%N; 17%N] : list N`; with N_scope open the numerals print bare, so take every integer
+    # between the last "=" and the type annotation
     body = out[out.rfind("="):]
-    failing = [int(x) for x in re.findall(r"(\d+)%N", body)]
+    body = body[:body.rfind(": list N")]
+    failing = [int(x) for x in re.findall(r"(\d+)", body)]
     return {"ok": True, "ids": ids, "failing": failing, "log": "", "dt": dt}
 
 
